@@ -209,7 +209,7 @@ CHECKS["C12"] = dict(
          "nothing and can be re-added; blacklisted mids and addresses are never verified; a snapshot reloads to exactly the verified "
          "peers' preferred addresses; load_snapshot terminates on every byte string. Tied on every run to the real Network/Peer classes by "
          "breadth-first exploration of all operation sequences (depth 3-4 full alphabet, 4-6 reduced) plus random 200-step sequences with "
-         "state-exact comparison (chained hash of return value + full abstracted state) after every operation, and an independent oracle. Second property file props/C12x.v (5 theorems): the snapshot codec is C02's wire model (no private codec), host-name records are modelled; record_boundary_exact, snapshot_never_raises, snapshot_roundtrip, packed_loads_in_order, truncated_snapshot_loads_complete_records, derived from C02's pack_unpack_fmt.",
+         "state-exact comparison (chained hash of return value + full abstracted state) after every operation, and an independent oracle. Second property file props/C12x.v (5 theorems): the snapshot codec is C02's wire model (no private codec), host-name records are modelled; record_boundary_exact, snapshot_never_raises, snapshot_roundtrip, packed_loads_in_order, truncated_snapshot_loads_complete_records, derived from C02's pack_unpack_fmt. Third property file props/C12y.v (9 theorems): every method of Network, DirtyDict and the address part of Peer are translated statement by statement from the AST every run (tr_network, fail closed) into a shallow embedding with explicit control outcomes and partiality; gen_refines_hand_model (grun = hrun on every history: same graph, same result of every operation, no exception), gen_state_is_model_state, gen_lookups_agree, gen_snapshot_roundtrip, gen_peer_address_is_preferred.",
     note="Trusted: Coq kernel; hand model M12_network and the harness abstraction (61-bit chained hash comparison). Assumes fresh, "
          "caller-unmodified Peer arguments, inet_ntop-form addresses (host-name snapshot records not modelled), mid identified with the "
          "key, blacklists fixed before the first operation; graph_lock/threads not modelled. Model follows the 7 fix commits fb27d78..747eec9.",
@@ -311,7 +311,7 @@ CHECKS["C18"] = dict(
          "the homomorphism under abstract-group hypotheses; range-proof completeness, honest unbuildability outside the range, "
          "serialisation round trips. Tied to the real code by differential runs (raw operands incl. general denominators and 16-512 bit "
          "moduli, fresh-key end-to-end exact and range proofs in all orders/subsets for small bit spaces, two-node AttestationCommunity "
-         "runs with honest and forging provers) and an independent oracle.",
+         "runs with honest and forging provers) and an independent oracle. Second property file props/C18x.v (26 theorems): the Boudot EL/SQR proofs, create_attest_pair, PengBaoPublicData.check, the exact-proof challenge/response and relativity functions and AttestationCommunity.on_challenge_response are translated from the AST every run (tr_proofs, fail closed; group, hash and random draws stay abstract); gen_refines_hand_model_* per function, the range theorems and the challenge bookkeeping theorems (answers matched by hash, counted once, a failed honesty check ends the verification) restated over the translated code.",
     note="Trusted: Coq kernel; tr_value/tr_expr; hand models tied by correspondence; bgn_keypair / abelian_group hypotheses on the "
          "Weil-pairing group (ec.py, get_good_wp not verified); floats compared with rationals within 1e-12. Range-proof soundness "
          "against a prover who knows the group order is REFUTED (open finding range/forged-proof-accepted-by-key-owner); completeness "
